@@ -9,7 +9,7 @@
     [ev_valid] excludes only the empty key in Put/Get/Delete (the property is about non-empty keys;
     query arguments may be empty). *)
 From Coq Require Import List NArith ZArith Lia.
-From Algo.C06 Require Import Spec SpecFacts Model ModelPat ProofsBin ProofsBinQ ProofsBinMain PatSweep PatInv PatBits PatTree PatMatch PatPut.
+From Algo.C06 Require Import Spec SpecFacts Model ModelPat ProofsBin ProofsBinQ ProofsBinMain PatSweep PatInv PatBits PatTree PatMatch PatDel PatPut.
 Import ListNotations.
 
 Local Notation a := 97%N.
@@ -161,6 +161,24 @@ Theorem C06_refines_patricia_noDelete :
   forall (V : Type) (es : list (ev V)), Forall nd_event es -> p_run p_new es = s_run [] es.
 Proof. intros. now apply patricia_refines_noDelete. Qed.
 
+(** Deleting a key that is not held changes nothing and answers "not found" (every checked state,
+    any key) — the part of the property's last sentence that does not need the four-pointer remove. *)
+Theorem C06_patricia_delete_absent :
+  forall (V : Type) (t : pstate V) k, p_inv_check t = true -> sget k (p_contents t) = None ->
+    p_delete t k = ROk (t, None).
+Proof. intros. now apply p_delete_absent. Qed.
+
+(** The strongest history theorem proved for the Patricia trie: every history in which
+    - Put uses representable keys,
+    - every Delete is of a key that is absent at that moment (by the specification's state),
+    - DeleteMin / DeleteMax occur on the empty map only, DeleteAll anywhere,
+    - queries are Get, Size, Min, Max, Floor, Ceiling, Select, Rank, Range, RangeSize, All, Match,
+    returns exactly the specification's outputs.  Missing for [C06_refines_patricia_full] on the
+    domain [kvalid]: removal of a HELD key (Delete / DeleteMin / DeleteMax through [p_remove]). *)
+Theorem C06_refines_patricia_partial :
+  forall (V : Type) (es : list (ev V)), ok_hist [] es -> p_run p_new es = s_run [] es.
+Proof. intros. now apply patricia_refines_partial. Qed.
+
 (** the bit-level facts behind it: DiffPos and the order of the zero padded bit strings *)
 Theorem C06_diffpos_spec : forall x y, kvalid x -> kvalid y -> x <> y ->
   (1 <= diffpos x y)%Z /\
@@ -227,6 +245,8 @@ Print Assumptions C06_patricia_queries_checked_partial.
 Print Assumptions C06_patricia_put_partial.
 Print Assumptions C06_patricia_match_checked.
 Print Assumptions C06_refines_patricia_noDelete.
+Print Assumptions C06_patricia_delete_absent.
+Print Assumptions C06_refines_patricia_partial.
 Print Assumptions C06_diffpos_spec.
 Print Assumptions C06_bit_order_is_lexicographic.
 Print Assumptions C06_patricia_bounded_partial.
